@@ -15,7 +15,7 @@ func init() { register("C09", checkC09) }
 func checkC09(p *Prog, r *Result, tier string) {
 	r.Technique = "unit/shape rules on the fold over the plugin answers (a Go map, so the order is arbitrary): who-returns rule on the merge function, per-field term analysis of every merged entry literal, divisor rule in the caller"
 	r.Explanation = "The caller folds the answers with acc = merge(acc, answer) starting from nil and then divides Rate and Usage of every entry by its Weight (FOLD, DIV). For the quotient to be the weight-averaged value independent of the answer order, every entry the merge function returns must carry weight-scaled sums: " +
-		"UN1 the merge function never returns one of its parameters as it is (an unscaled first answer) — every returned map is built locally; UN2 in every entry literal it builds, Rate and Usage are sums whose terms are either a field of the accumulator entry (already scaled) or `x.F * x.Weight` of one answer entry, Weight is the sum of the Weight fields of all its sources, Capacity is the minimum over (or the only one of) its sources; UN3 a node is kept only when the other operand has it too (lookup with ok-check); UN4 the branch that copies a single answer is guarded by `acc == nil` (nothing merged yet), never by emptiness; UN5 every entry stored into the result is such a literal, never an entry of an operand; FOLD2 every call of the merge function passes (accumulator, answer) in that order."
+		"UN1 the merge function never returns one of its parameters as it is (an unscaled first answer) — every returned map is built locally; UN2 in every entry literal it builds, Rate and Usage are sums whose terms are either a field of the accumulator entry (already scaled) or `x.F * x.Weight` of one answer entry, Weight is the sum of the Weight fields of all its sources, Capacity is the minimum over (or the only one of) its sources; UN3 a node is kept only when the other operand has it too (lookup with ok-check); UN4 the branch that copies a single answer is guarded by `acc == nil` (nothing merged yet), never by emptiness; UN5 every entry stored into the result is such a literal, never an entry of an operand; FOLD2 every call of the merge function passes (accumulator, answer) in that order; RM the remap parameters of one workload are kept per plugin (an entry is created only when absent, each answer stored under its plugin's name), so the result does not depend on which plugin answers last."
 	r.NotCovered = "floating-point non-associativity of the sums; a plugin answering with weight 0; plugins that fail (the call helper's policy)"
 	r.Assumptions = []string{"the accumulator is only ever produced by the merge function itself (checked by FOLD)", "A5 no NaN/Inf in usage/rate"}
 	r.min("FOLD", 1)
@@ -364,5 +364,13 @@ func checkC09(p *Prog, r *Result, tier string) {
 			return true
 		})
 		r.check(ok, "UN3", M.Name+" / a node is offered only if every plugin offers it", p.pos(M.Decl), "entries are stored only under `if other, ok := answer[node]; ok`", "a node missing from one plugin's answer can still be offered")
+	}
+	// RM: the other aggregation over the plugins that is keyed by workload (remap parameters): the plugins' answers for one
+	// workload are kept side by side under each plugin's name, never one replacing the other (shared with C32)
+	if MR := p.Fn("resource/cobalt.Manager.Remap"); MR == nil {
+		r.undecided("RM", "resource/cobalt.Manager.Remap", "", "not found")
+	} else {
+		r.min("RM", 1)
+		checkRemapMerge(p, r, MR, "RM")
 	}
 }
